@@ -185,6 +185,17 @@ func (d *Document) AddListItem(text string, config *ListConfig) *Paragraph {
 		}
 	}
 
+	// 缩进级别只支持0-8（抽象编号定义了9个级别），超出范围时取最近的有效级别
+	if config.IndentLevel < 0 || config.IndentLevel > 8 {
+		clamped := *config
+		if clamped.IndentLevel < 0 {
+			clamped.IndentLevel = 0
+		} else {
+			clamped.IndentLevel = 8
+		}
+		config = &clamped
+	}
+
 	// 确保编号管理器已初始化
 	d.ensureNumberingInitialized()
 
